@@ -4,7 +4,9 @@ import (
 	"encoding/json"
 	"fmt"
 	"os"
+	"runtime"
 	"strconv"
+	"strings"
 	"testing"
 
 	"pgregory.net/rapid"
@@ -137,4 +139,22 @@ func runDBM(t *testing.T, prop string, p *dbm.Profile, cls classifier) {
 			rec.Sample(map[string]any{"case": c, "stats": st})
 		}
 	})
+}
+
+// goroutineDump returns the stacks of all goroutines that are inside goleveldb
+// or the harness (used to document a blocked state).
+func goroutineDump() string {
+	buf := make([]byte, 1<<20)
+	n := runtime.Stack(buf, true)
+	var out []string
+	for _, g := range strings.Split(string(buf[:n]), "\n\n") {
+		if strings.Contains(g, "goleveldb/leveldb") {
+			lines := strings.Split(g, "\n")
+			if len(lines) > 14 {
+				lines = lines[:14]
+			}
+			out = append(out, strings.Join(lines, "\n"))
+		}
+	}
+	return strings.Join(out, "\n\n")
 }
